@@ -24,6 +24,17 @@ def run_property(pid: str, tier: str, repo_root: str, only: str | None = None) -
     try:
         repo = Repo(repo_root)
         chk.analysed.update(repo.stats())
+
+        def gate(site, repo=repo):
+            # site = '<relpath>:<line> <qualname>'
+            try:
+                loc, qual = site.split(' ', 1)
+                rel = loc.rsplit(':', 1)[0]
+            except ValueError:
+                return set()
+            return repo.new_vocabulary(rel, qual)
+        chk.gate = gate
+        chk.firm = bool(getattr(mod, 'FIRM', False))
         mod.run(repo, chk, tier)
         if tier == 'thorough' and hasattr(mod, 'run_thorough'):
             mod.run_thorough(repo, chk)
